@@ -1159,6 +1159,10 @@ func Run(c *hx.Ctx) {
 	runRlockAll(c)
 	// routers loaded from a directory / from static JSON / built by code, dump -> reload through the real loader (mode.go)
 	runModeAll(c)
+	// circuit-breaker thresholds of an updated cluster: live vs a fresh cluster from the dump after every step (rsrc.go)
+	runRsrcAll(c)
+	// removals down to zero and re-additions, dump after every step into the same directories, reload (dirhist.go)
+	runDirAll(c)
 	g := &gen{c: c}
 	n := c.N(5000, 40000)
 	for i := 0; i < n; i++ {
